@@ -61,7 +61,8 @@ def postmortem(job, S):
 def sizes_for(need, quick):
   sizes = set([need - 1, need, need + 64, 0, 1, 8, 63, 64])
   if quick:
-    sizes |= set(int(x) for x in np.linspace(0, need, 40))
+    # ~700 sizes per scene: every failure window wider than need/700 (>= 64 bytes) is hit at least once
+    sizes |= set(range(0, need, max(64, (need // 700) // 8 * 8)))
     sizes |= set(range(0, min(need, 4096), 32))
   else:
     sizes |= set(range(0, need, 64))
@@ -96,6 +97,13 @@ def main(ck):
       (i % 4) * 0.26, ((i // 4) % 4) * 0.26, 0.098) for i in range(14))
   scenes.append((dict(body='<worldbody><geom type="plane" size="5 5 .1"/>%s</worldbody>' % balls,
                       labels=['layout:cluster', 'regression-scene'], nobj=14), 0))
+  # two fixed scenes that guarantee the dual-solver paths (efc_Y / efc_AR arena arrays), sparse and dense
+  boxes = ''.join('<body pos="%g %g %g"><freejoint/><geom type="box" size=".1 .08 .06" condim="%d"/></body>' % (
+      (i % 2) * 0.17, ((i // 2) % 2) * 0.15, 0.058 + (i // 4) * 0.115, (3, 4, 6, 1)[i % 4]) for i in range(8))
+  for jac, extra in (('sparse', ''), ('dense', ' noslip_iterations="2"')):
+    scenes.append((dict(body='<option solver="%s" jacobian="%s" cone="elliptic"%s/><worldbody><geom type="plane" size="5 5 .1"/>'
+                             '%s</worldbody>' % ('PGS' if jac == 'sparse' else 'CG', jac, extra, boxes),
+                        labels=['layout:pile', 'regression-scene', 'dual:' + jac], nobj=8), 1))
   from vf import build as vb
   for v in ('rel', 'asan'):
     vb.build(v)
